@@ -564,3 +564,9 @@ mod tests {
         unsafe { dealloc(ptr, layout) };
     }
 }
+
+// Verification harnesses (Kani); the sources live outside this repository.
+#[cfg(feature = "verif")]
+mod verif {
+    include!(concat!(env!("VHOST_VERIF_DIR"), "/harness/vk_vdpa.rs"));
+}
